@@ -29,7 +29,24 @@ s = open(p).read()
 if 'SEED_TABLE_PLACEHOLDER' in s:
   s = s.replace('SEED_TABLE_PLACEHOLDER', '<!-- seed-table -->\n' + table + '\n<!-- /seed-table -->')
 else:
-  s = re.sub(r'<!-- seed-table -->.*?<!-- /seed-table -->', '<!-- seed-table -->\n' + table.replace('\\', '\\\\') + '\n<!-- /seed-table -->', s, flags=re.S)
+  s = re.sub(r'<!-- seed-table -->.*?<!-- /seed-table -->', lambda m_: '<!-- seed-table -->\n' + table + '\n<!-- /seed-table -->', s, flags=re.S)
+# ---- property-preserving changes (benign/) -------------------------------------------------------
+brows = []
+for bid in sorted(os.listdir(V + '/benign')):
+  mp = os.path.join(V, 'benign', bid, 'meta.json')
+  if not os.path.exists(mp):
+    continue
+  m = json.load(open(mp))
+  res = ', '.join('%s: exit %s' % (r['check'], r['exit']) for r in m.get('checks', [])) or '(not run)'
+  why = ''
+  for r in m.get('checks', []):
+    if r['exit'] != 0 and r.get('alarms'):
+      why = r['alarms'][0].replace('|', '/')[:110]
+      break
+  brows.append('| %s | %s | %s | %s |' % (bid, res, why, m.get('summary', '')[:100].replace('|', '/').replace('\n', ' ')))
+btable = '| change | quick check result | first PROBLEM / VIOLATION line | change |\n|---|---|---|---|\n' + '\n'.join(brows)
+if '<!-- benign-table -->' in s:
+  s = re.sub(r'<!-- benign-table -->.*?<!-- /benign-table -->', lambda m_: '<!-- benign-table -->\n' + btable + '\n<!-- /benign-table -->', s, flags=re.S)
 open(p, 'w').write(s)
 n = sum(1 for r in rows if '| —' not in r and '(not run)' not in r)
 print('rows', len(rows), 'caught', n)
